@@ -1,7 +1,7 @@
 (** C04 — load, save, load again: foreign and legacy input is normalised without loss.
     Statements only; proofs live in Proofs/FontRTP.v and Proofs/FontToyP.v. *)
 Require Import Norad.Model.GlifSpec Norad.Model.GlifEncode Norad.Proofs.GlifEncodeP Norad.Proofs.GlifRoundtripP Norad.Proofs.GlifFullP.
-Require Import Norad.Model.Base Norad.Model.FontRT Norad.Model.FontToy Norad.Model.FontNum Norad.Model.FontReal
+Require Import Norad.Model.Base Norad.Model.FontRT Norad.Model.FontToy Norad.Model.FontNum Norad.Model.FontReal Norad.Model.FontRealPlist
                Norad.Proofs.FontRTP Norad.Proofs.FontToyP Norad.Proofs.FontNumP Norad.Proofs.FontRealP.
 Open Scope N_scope.
 
@@ -114,3 +114,27 @@ Theorem C04_loaded_glyphs_obey_rules_real : forall pf ff ff3 fi fh (K : codecs)
             exists g, glyph_rules g /\ lookup objlibs_key (glib g) = None /\ snd e = set_gname (fst (fst e)) g)
             (l_glyphs l)) (f_layers _ f).
 Proof. exact loaded_glyphs_rules_real. Qed.
+
+(** the same with metainfo.plist, layercontents.plist and contents.plist read and written by the
+    tree-level plist codec (Model/FontRealPlist.v; see Props/C01.v): closedness of these three
+    readers is PROVED (a decoded metainfo has a minor version below 2^32, decoded layer and glyph
+    names are [Name]s, decoded contents are in BTreeMap order), so [codecs_closed] shrinks to
+    [codecs4_closed K4]: the lib / groups / kerning / layerinfo readers return writable values and
+    guideline identifiers are writable keys.  Satisfiable: [C04_real_codecs4_satisfiable]. *)
+Theorem C04_real_plist_files_closed : forall pf ff ff3 fi fh (K4 : codecs4),
+  L1_glif pf ff ff3 fi fh -> codecs4_closed K4 -> codecs_closed (with_plist_files pf ff fi K4).
+Proof. exact plist_files_closed. Qed.
+Theorem C04_fixed_point_real_plist_files : forall pf ff ff3 fi fh (K4 : codecs4),
+  L1_glif pf ff ff3 fi fh -> codecs4_ok K4 -> codecs4_closed K4 ->
+  forall o (t : tree (real_sig pf ff ff3 fi fh (with_plist_files pf ff fi K4)))
+         (f : font (real_sig pf ff ff3 fi fh (with_plist_files pf ff fi K4))) mc m,
+  load (real_sig pf ff ff3 fi fh (with_plist_files pf ff fi K4)) t = Ok f ->
+  t_meta _ t = Some mc ->
+  dec (P_meta (real_sig pf ff ff3 fi fh (with_plist_files pf ff fi K4))) mc = Some m -> m_version m = 3 ->
+  Forall (fun l => Forall (fun e : str * str * glyph => glyph_rt_domain pf ff3 (snd e)) (l_glyphs l)) (f_layers _ f) ->
+  exists t', save (real_sig pf ff ff3 fi fh (with_plist_files pf ff fi K4)) o f = Ok t' /\
+             exists f', load (real_sig pf ff ff3 fi fh (with_plist_files pf ff fi K4)) t' = Ok f' /\
+                        font_equiv (real_sig pf ff ff3 fi fh (with_plist_files pf ff fi K4)) f f'.
+Proof. exact fixed_point_real_plist. Qed.
+Example C04_real_codecs4_satisfiable : codecs4_ok id_codecs4 /\ codecs4_closed id_codecs4.
+Proof. split; [exact id_codecs4_ok|exact id_codecs4_closed]. Qed.
